@@ -435,12 +435,33 @@ func ruleC12R3(c *Ctx) {
 					}
 				})
 			}
+			// cells that collect the closer (e.g. a slice of closers closed later by a helper closure):
+			// re-initialising such a cell starts a new generation of loaded items
+			closerCells := map[*ssa.Alloc]bool{}
+			isCloser := func(y ssa.Value) bool { return y == closer }
+			eachInstr(fn, func(in ssa.Instruction) {
+				if st, ok := in.(*ssa.Store); ok {
+					if al, ok := st.Addr.(*ssa.Alloc); ok && dependsOn(st.Val, isCloser) {
+						closerCells[al] = true
+					}
+				}
+			})
 			var problems []string
 			ex := &Explorer{Fn: fn}
 			ex.OnInstr = func(in ssa.Instruction, st *PState) bool {
 				if in == ssa.Instruction(ld) {
 					st.Flags &^= fClosed
 					return true
+				}
+				if al, ok := in.(*ssa.Alloc); ok && closerCells[al] {
+					st.Flags &^= fClosed // a new (zeroed) collection cell per loop round
+					return true
+				}
+				if sto, ok := in.(*ssa.Store); ok {
+					if al, ok := sto.Addr.(*ssa.Alloc); ok && closerCells[al] && !dependsOn(sto.Val, isCloser) {
+						st.Flags &^= fClosed
+						return true
+					}
 				}
 				if _, isDefer := in.(*ssa.Defer); isDefer {
 					return true
